@@ -65,8 +65,15 @@ def gen_world(rng, max_files=3, allow_include=True, nprobes=(3, 10), plain_prefi
     # pads
     for f in allf:
         for _ in range(rng.randint(1, 5)):
-            k = rng.choice(["blkb", "nop", "word", "blkw"])
-            if k == "blkb":
+            k = rng.choice(["blkb", "nop", "word", "blkw", "bare", "zero"])
+            if k == "bare":
+                # data directives without operands reserve one element
+                t, n = rng.choice([(".word", 2), (".dword", 4), (".byte\n.byte", 2), (".word\n.word", 4)])
+                f.items.append(("pad", t, n))
+            elif k == "zero":
+                # statements that occupy nothing
+                f.items.append(("pad", rng.choice([".blkb 0", ".blkw 0", ".even", ".repeat 0 { nop }", ".repeat 3 { }", ".ascii //", "; only a comment", ""]), 0))
+            elif k == "blkb":
                 n = 2 * rng.randint(0, 40)
                 f.items.append(("pad", ".blkb %d." % n, n))
             elif k == "blkw":
@@ -251,25 +258,32 @@ def _make_probe(rng, tmpl, pa, l1, l2, addr):
         p["decode"] = "mov 2 abs:%d reg:%d" % (t1 & 0xFFFF, r)
         p["abs_words"] = [1]
     elif k in ("idx", "idxdef", "idxdefneg"):
-        rn = rng.randrange(6)
+        rn = rng.randrange(6) if rng.random() < 0.75 else rng.choice([6, 7])
         # the displacement: the label alone, or an unbracketed expression of two or three levels around it
         a, b, c = rng.randrange(1, 6), rng.randrange(1, 5), rng.randrange(0, 9)
         disp, dval = rng.choice([
             (l1, t1), (l1, t1), ("%s+%o*%o" % (l1, a, b), t1 + a * b), ("%s-%o*%o" % (l1, a, b), t1 - a * b), ("%o*%o+%s" % (a, b, l1), a * b + t1),
             ("%s+%o+%o" % (l1, a, c), t1 + a + c), ("%s+%o*%o-%o" % (l1, a, b, c), t1 + a * b - c), ("%s+<%o*%o>" % (l1, a, b), t1 + a * b),
             ("%s+%o/%o" % (l1, a * b, b), t1 + a)])
+        rname = "r%d" % rn if rn < 6 or rng.random() < 0.4 else rng.choice([["sp", "SP", "%6"], ["pc", "PC", "%7", "Pc"]][rn - 6])
         if k == "idx":
-            p["src"], mode, val = "mov %s(r%d), r%d" % (disp, rn, r), 6, dval
+            p["src"], mode, val = "mov %s(%s), r%d" % (disp, rname, r), 6, dval
         elif k == "idxdef":
-            p["src"], mode, val = "mov @%s(r%d), r%d" % (disp, rn, r), 7, dval
+            p["src"], mode, val = "mov @%s(%s), r%d" % (disp, rname, r), 7, dval
         else:
-            p["src"], mode, val = "clr @-%s(r%d)" % (l1, rn), 7, -t1
+            p["src"], mode, val = "clr @-%s(%s)" % (l1, rname), 7, -t1
         size = 4
+
+        def dop(m, reg, x):
+            # an index on the program counter is what a decoder prints as a relative operand with that displacement
+            if reg == 7:
+                return ("rel:%d" if m == 6 else "reldef:%d") % (x & 0xFFFF)
+            return "idx:%d:%d:%d" % (m, reg, x & 0xFFFF)
         if k == "idxdefneg":
-            p["decode"] = "clr 2 idx:%d:%d:%d" % (mode, rn, val & 0xFFFF)
+            p["decode"] = "clr 2 " + dop(mode, rn, val)
             p["neg_words"] = [1]          # holds minus an address: moves by minus the difference of the bases
         else:
-            p["decode"] = "mov 2 idx:%d:%d:%d reg:%d" % (mode, rn, val & 0xFFFF, r)
+            p["decode"] = "mov 2 %s reg:%d" % (dop(mode, rn, val), r)
             p["abs_words"] = [1]
     elif k in ("fpload", "fpstore", "fpmul"):
         ac = rng.randrange(4)
